@@ -7,6 +7,8 @@ package test_acp_dac
 import (
 	"testing"
 
+	"github.com/sourcenetwork/immutable"
+
 	"github.com/sourcenetwork/defradb/tests/action"
 	testUtils "github.com/sourcenetwork/defradb/tests/integration"
 )
@@ -137,6 +139,58 @@ func TestGovcC10_ShowDeletedHidesPrivateDocAndReturns(t *testing.T) {
 				Results:  map[string]any{"Users": []map[string]any{{"name": "Public"}}},
 			},
 		),
+	}
+	testUtils.ExecuteTestCase(t, test)
+}
+
+// An actor who may update but not read a document (update: owner + updater, read: owner + reader), on a
+// collection with a secondary index: the update must succeed or be refused with an error - not crash.
+func TestGovcC10_UpdaterWithoutReadOnIndexedCollection(t *testing.T) {
+	test := testUtils.TestCase{
+		SupportedMutationTypes: immutable.Some([]testUtils.MutationType{testUtils.CollectionSaveMutationType}),
+		Actions: []any{
+			testUtils.AddDACPolicy{Identity: testUtils.ClientIdentity(1), Policy: `
+name: test
+description: a policy whose update permission does not imply read
+actor:
+  name: actor
+resources:
+  users:
+    permissions:
+      read:
+        expr: owner + reader
+      update:
+        expr: owner + updater
+      delete:
+        expr: owner
+    relations:
+      owner:
+        types:
+          - actor
+      reader:
+        types:
+          - actor
+      updater:
+        types:
+          - actor
+`},
+			&action.AddSchema{Schema: `
+				type Users @policy(id: "{{.Policy0}}", resource: "users") {
+					name: String @index
+					age: Int
+				}`},
+			testUtils.CreateDoc{Identity: testUtils.ClientIdentity(1), CollectionID: 0, Doc: `{"name": "Shahzad", "age": 28}`},
+			testUtils.AddDACActorRelationship{
+				RequestorIdentity: testUtils.ClientIdentity(1), TargetIdentity: testUtils.ClientIdentity(2),
+				CollectionID: 0, DocID: 0, Relation: "updater", ExpectedExistence: false,
+			},
+			testUtils.UpdateDoc{Identity: testUtils.ClientIdentity(2), CollectionID: 0, DocID: 0, Doc: `{"name": "Changed"}`, SkipLocalUpdateEvent: true},
+			testUtils.Request{
+				Identity: testUtils.ClientIdentity(1),
+				Request:  `query { Users(filter: {name: {_eq: "Changed"}}) { name } }`,
+				Results:  map[string]any{"Users": []map[string]any{{"name": "Changed"}}},
+			},
+		},
 	}
 	testUtils.ExecuteTestCase(t, test)
 }
